@@ -18,10 +18,12 @@ const PROP: &str = "C12";
 const SHAPES: [&str; 15] = [
     "flag-short", "flag-long", "flag-both", "count-short", "count-long", "opt-short", "opt-long", "opt-both", "opt-optional", "opt-req-eq", "opt-multi", "pos-required", "pos-optional", "pos-multi", "pos-last",
 ];
-const MODS: [&str; 20] = [
+const MODS: [&str; 21] = [
     "none", "hide", "hide-short-help", "hide-long-help", "next-line-help", "heading", "long-help", "possible-values", "possible-values-unicode", "default", "env", "visible-alias", "long-text", "possible-values-all-hidden",
     // combinations (applied left to right): the short/long decision of `--help` reads several of these
     "arg-hide-pv", "possible-values+arg-hide-pv", "hide-short-help+arg-hide-pv", "hide-long-help+arg-hide-pv", "hide-short-help+possible-values", "hide-short-help+heading",
+    // a heading that is the empty string: the argument still has to be listed somewhere
+    "empty-heading",
 ];
 const CMODS: [&str; 13] = [
     "none", "next-line-help", "flatten-help", "tmpl-options", "tmpl-positionals", "tmpl-subcommands", "tmpl-all-args", "sub-heading", "before-after", "flatten-equal-display-order", "hide-possible-values",
@@ -97,6 +99,7 @@ fn mk_arg(n: usize, shape: &str, m: &str) -> ArgSpec {
         "hide-long-help" => a.hide_long_help = true,
         "next-line-help" => a.next_line_help = true,
         "heading" => a.help_heading = Some("CUSTOMHEAD".into()),
+        "empty-heading" => a.help_heading = Some(String::new()),
         "long-help" => a.long_help = Some(format!("LONGHELPMARK{} with a second sentence that is somewhat longer", n)),
         "possible-values" if takes => {
             a.parser = Vp::Pv(vec![
@@ -343,7 +346,9 @@ fn check(spec: &CmdSpec, shapes: &[(String, String)], cm: &str) -> Vec<(String, 
                 continue;
             }
             let heading = a.help_heading.clone().unwrap_or_else(|| if a.is_positional() { "Arguments".into() } else { "Options".into() });
-            let Some(lines) = section(t, &heading) else {
+            // an empty heading has no recognisable title line: the entry may stand anywhere
+            let all_lines: Vec<&str> = t.lines().filter(|l| l.starts_with(' ')).collect();
+            let Some(lines) = (if heading.is_empty() { Some(all_lines) } else { section(t, &heading) }) else {
                 bad.push(("a visible argument's section is missing".into(), format!("{}: no `{}:` section for {} ({})", r.name, heading, a.id, shapes[n].0)));
                 continue;
             };
